@@ -60,6 +60,20 @@ CHECKS = {
         note='no axioms; hand model of numpy slicing/append (Model/Store.v) tied by correspondence only; integer-valued log-probabilities '
              'in the correspondence; normalisation to unit total and multi-row marginals are judged numerically by the oracle.',
         design='6 C09'),
+    'C01': dict(
+        technique='Coq proof for every commutative semiring (ring, list induction, Permutation) about an executable Gallina model of ForwardTask, the same terms executed at Q by vm_compute against the implementation',
+        text='Theorems in coq/Props/C01.v (axiom-free for the generic statements): in the model of the pure-Python ForwardTask branch the '
+             'value of a tensor at a location sample is the product of the per-station terms of exactly the selected data types, adding a '
+             'type multiplies by its product, station order is irrelevant (Permutation), the marginal is the weight-multiplied sum over '
+             'location samples, invariant under reordering the samples and under replacing a duplicated sample by added weights, batch '
+             'independent, and zero filtering returns exactly the non-zero columns with their own values. Proved once from the semiring '
+             'laws (hence for R); the same definitions are run at Q inside Coq against ForwardTask on generated configurations '
+             '(atoms = the implementation\'s per-station probabilities evaluated one station/sample/tensor at a time).',
+        note='generic theorems are closed under the global context; the R instance uses the three real-number axioms; numpy broadcasting, '
+             'try/except flow and LnPDF plumbing are modelled by hand and tied by correspondence; exp/log comparisons use 1e-8 (wider for '
+             'fractional errors below 1e-2, loose in the float underflow regime), zero/non-zero status exact; kernels themselves are '
+             'C02/C03; builders are C11.',
+        design='6 C01'),
 }
 
 NA_REASON = 'check not built yet (work in progress; see DESIGN.md section 6)'
